@@ -36,6 +36,8 @@ pub enum Varied {
         n: Vec<i64>,
         f: f64,
         m: std::collections::BTreeMap<String, Option<bool>>,
+        /// wide integers as keys and values (the longest numbers there are: 39 and 40 characters)
+        w: std::collections::BTreeMap<u128, i128>,
         c: char,
         e: &'static str,
     },
@@ -53,6 +55,7 @@ pub fn filler_varied(len: usize) -> Option<Call<Varied>> {
             n: vec![-1, 0, 9_223_372_036_854_775_807, 42],
             f: 6.02214076e23,
             m: [("k".to_string(), Some(true)), ("none".to_string(), None)].into_iter().collect(),
+            w: [(u128::MAX, i128::MIN), (10u128.pow(22), -(10i128.pow(30))), (7, 7)].into_iter().collect(),
             c: 'é',
             e: "tab\there \"quoted\" \u{1}",
         })
